@@ -73,6 +73,10 @@ def generate(repo, ws, write_if_changed):
         dict(kind="fn", name="find_height_after_window_fast"),
         dict(kind="fn", name="find_height_after_window_slow"),
     ]))
+    emit("pruner_c35.rs", slice_file(repo, "node/src/pruner.rs", [
+        dict(kind="const", name="MAX_PRUNABLE_BATCH_SIZE"),
+        dict(kind="fn", name="get_next_prunable_batch", impl=r"impl<S, B> Worker<S, B>", wrap="impl Worker"),
+    ]))
     emit("p2p_c27.rs", slice_file(repo, "node/src/p2p.rs", [
         dict(kind="fn", name="get_verified_headers_range", impl=r"^impl P2p$", wrap="impl P2p"),
     ]))
